@@ -353,7 +353,7 @@ def dbm(x):
     if (x<0).any():
         raise ValueError('Some values of input array are negative.')
     
-    return 10*np.log10(x*1e3)
+    return 10*np.log10(x) + 30
 
 
 def idb(x):
